@@ -29,7 +29,7 @@ def frames(err, rc=""):
 
 
 def run_robust(exe, lines):
-    outs, events = widefind.run_robust(exe, lines)
+    outs, events = widefind.run_robust(exe, lines, hang_key=(lambda l: l.split()[1]) if lines and lines[0].startswith("wfill") else None)
     return outs, [(lines[i] if kind != "EXIT" else None, "%s:%s" % (kind, rc), err) for i, kind, rc, err in events]
 
 
